@@ -33,8 +33,8 @@ def compress(c):
 
 def case_term(c):
     temps, flat = compress(c)
-    return "mkCase %d %d %d %d %d %d %d %d %s %s %s %s %d %d %s %d" % (
-        c["ann"], c["N"], c["m"], c["init"], c["k"], c["where"], c["pay"], c["c0"], hex(c["T0"]), hex(c["a"]),
+    return "mkCase %d %d %d %d %d %d %d %d %d %d %s %s %s %s %d %d %s %d" % (
+        c["ann"], c["N"], c["m"], c["init"], c["k"], c["where"], c["pay"], c["who"], c["td"], c["c0"], hex(c["T0"]), hex(c["a"]),
         "[" + ";".join(hex(t) for t in temps) + "]", zs(flat), c["out"], c["fin"], hex(c["ft"]), c["anom"])
 
 
@@ -85,7 +85,7 @@ def run(ctx):
                 small = dict(shard[i])
                 small["log"] = small["log"][:40]
                 ctx.notes.append({"mismatch": small})
-    key = lambda c: (c["ann"], c["expl"], c["N"], c["m"], c["init"], c["k"], c["where"], c["pay"], c["c0"] != 0, c["clone"])
+    key = lambda c: (c["ann"], c["expl"], c["N"], c["m"], c["init"], c["k"], c["where"], c["pay"], c["who"], c["td"], c["c0"] != 0, c["clone"])
     nontrivial = {key(c) for c in cases if c["N"] > 0 or c["init"] != 0}
     ctx.coverage.update({
         "evaluations": len(cases), "distinct_nontrivial": len(nontrivial),
@@ -94,11 +94,15 @@ def run(ctx):
                 "on the modumb model, all behind a call-recording / fault-injecting wrapper; N in {0,1,2,7,100} (thorough: "
                 "{0,1,2,3,7,20,50,100,1000}); 0..3 observers; no fault, Initialise() panicking, and a panic at iteration k (every k for "
                 "N<=7, {1,N,random} above) in TryRandomChange / CoolDown-before-multiply / CoolDown-after-multiply with payload "
-                "error / string / nil (all three for N<=2, one drawn otherwise; thorough: all); a fault scripted beyond the budget; a second "
+                "error / string / nil (all three for N<=2, one drawn otherwise; thorough: all); an OBSERVER (index drawn, thorough: every index for 1..3 "
+                "observers) panicking while handed the start event, StartedIteration k, FinishedIteration k (every k for N<=7) or the finish event; "
+                "TearDown() panicking (error / string / nil) after a fault-free run, after a failed Initialise and on top of another fault whose panic "
+                "it replaces; a fault scripted beyond the budget; a second "
                 "Anneal() of the same instance; a DeepClone() in a third of the cases; T0 and factor from a palette incl. 0, 1, subnormal, "
                 "1e300, factor 0 / 1 / 1e-200 and random values; out-of-range values (factor > 1, < 0, inf, NaN; T0 inf, negative) forced "
                 "into the kirkpatrick coolant. Compared: the full global log (who, event or explorer call, iteration, temperature bits), whether "
-                "Anneal() returned or re-raised the injected value, final currentIteration, final temperature; NOT compared: log lines, relayed "
+                "Anneal() returned or re-raised (the value of the panic in flight: the injected error or a wrapper / the injected string / a new error "
+                "for a nil payload), final currentIteration, final temperature; NOT compared: log lines, relayed "
                 "explorer notes, whether a re-raised error is wrapped. distinct_nontrivial = distinct (annealer, explorer, N, observers, fault) "
                 "configurations with N>0 or an Initialise fault",
         "exhaustive": False,
@@ -108,9 +112,13 @@ def run(ctx):
     pick = [c for c in cases if c["N"] == 2 and c["m"] == 1][:2] + [c for c in cases if c["N"] == 7 and c["where"] == 3 and c["m"] == 2][:1]
     ctx.samples = pick or cases[:2]
     ctx.assumptions = [
-        "the panic is raised by the explorer (Initialise, TryRandomChange or CoolDown); panics raised inside an observer or inside TearDown are not modelled",
+        "faults modelled: a panic raised by the explorer (Initialise, TryRandomChange, CoolDown, TearDown) or by an observer of the annealer while it is handed "
+        "one of the four annealing-state events; one primary fault per run (+ optionally a panicking TearDown); a panic inside an observer of the EXPLORER "
+        "(relayed notes) or inside the logger is not modelled",
         "fresh annealer (currentIteration = 0), as scenario.Runner anneals a DeepClone of a never-annealed instance; re-annealing is modelled (c0 <> 0) and "
         "compared but is outside the property's quantifier",
-        "panic(nil) under go.mod `go 1.17` is swallowed by handlePanicRecovery (listed finding C07-panic-nil); the re-raise theorem is proved for non-nil payloads",
+        "panic(nil) (go.mod `go 1.17`: recover() reports nil) during a run is re-raised as a wrapped descriptive error since the fix of finding C07-panic-nil "
+        "(`completed` flag); residue, outside the property and noted as C07_note_teardown_nil_after_completed_run: panic(nil) raised by TearDown() after a "
+        "COMPLETED run is still indistinguishable from a normal return",
         "primitive binary64 multiplication in Coq = Go's float64 multiplication on amd64 (no fused multiply-add); NaN payload bits are not compared",
     ]
